@@ -664,7 +664,7 @@ fn all_assignments(vars: &[u32]) -> impl Iterator<Item = Vec<(u32, bool)>> + '_ 
 /// table of `f` over the variables `vars` (bit j of the index = vars[j]), all other
 /// variables of the manager (`nv_mgr` many) false
 fn table_of<K: Kind>(f: &K::F, vars: &[u32], nv_mgr: u32) -> String {
-    if vars.len() > 12 {
+    if vars.len() > 14 {
         return "skip".into();
     }
     let mut t = Vec::with_capacity(1 << vars.len());
@@ -1202,6 +1202,28 @@ impl Gen {
     }
 
     /// (B) random diagrams with up to 10 variables, some of them unused
+    /// large diagrams (thousands of nodes): node ids and id distances need two and three bytes in the binary
+    /// node stream, so that every escape sequence of the byte codec occurs
+    fn big_cases(&mut self, dd: &str, n: usize) {
+        for _ in 0..n {
+            let nv = self.rng.range(12, 14) as u32;
+            let all: Vec<u32> = (0..nv).collect();
+            let mut ops = Vec::new();
+            for _ in 0..2 {
+                ops.push(format!("F {}", self.bool_table(nv, &all, false)));
+            }
+            if self.reorder && self.rng.chance(1, 2) {
+                ops.push(format!("O {}", self.perm(nv).iter().map(|x| x.to_string()).collect::<Vec<_>>().join(" ")));
+            }
+            for ascii in [false, true] {
+                let ver3 = self.rng.chance(1, 2);
+                let strict = self.rng.chance(1, 2);
+                ops.push(self.x_op(2, ver3, ascii, false, strict, false));
+            }
+            self.emit("valid", dd, nv, " cap=262144", &ops);
+        }
+    }
+
     fn random_cases(&mut self, dd: &str, n: usize) {
         for ci in 0..n {
             let nv = self.rng.range(0, 10) as u32;
@@ -1713,6 +1735,8 @@ fn gen(tier: &str, seed: u64) {
         g.three_var_cases(dd);
         g.random_cases(dd, if thorough { 400 } else { 40 });
     }
+    g.big_cases("bcdd", if thorough { 8 } else { 2 });
+    g.big_cases("bdd", if thorough { 2 } else { 1 });
     // malformed stream: ~3k (quick) / ~20k (thorough) inputs per format
     let (nbase, nmut) = if thorough { (8, 2200) } else { (2, 1200) };
     for _ in 0..nbase {
